@@ -1,15 +1,19 @@
 #!/usr/bin/env python3
 """Confirms sub-agent seeded changes in their scratch worktrees and files them under /verif/seeded/.
 For each /tmp/seed/<Cxx>.out/{a,b}.patch: demo passes on the unchanged tree, fails with the patch, and
-the library's own 242 unit tests stay green with the patch. usage: verify_seeds.py C05 C06 ..."""
+the library's own 242 unit tests stay green with the patch. usage: verify_seeds.py [--round2] C05 C06 ...
+(--round2: worktrees under /tmp/seed2, filed as <Cxx>-c / <Cxx>-d)"""
 import json, os, shutil, subprocess, sys, re
 def sh(cmd, cwd=None, timeout=3600):
     return subprocess.run(cmd, shell=True, capture_output=True, text=True, cwd=cwd, timeout=timeout)
 props = {}
 for l in open('/verif/properties.jsonl'):
     p = json.loads(l); props[p['id']] = p['title']
-for pid in sys.argv[1:]:
-    wt = f'/tmp/seed/{pid}'; out = f'/tmp/seed/{pid}.out'
+R2 = '--round2' in sys.argv
+BASE = '/tmp/seed2' if R2 else '/tmp/seed'
+LETTER = {'a': 'c', 'b': 'd'} if R2 else {'a': 'a', 'b': 'b'}
+for pid in [a for a in sys.argv[1:] if not a.startswith('--')]:
+    wt = f'{BASE}/{pid}'; out = f'{BASE}/{pid}.out'
     readme = open(out + '/README.md').read() if os.path.exists(out + '/README.md') else ''
     for v in 'ab':
         patch = f'{out}/{v}.patch'; demo = f'{out}/{v}_demo.rs'
@@ -32,8 +36,8 @@ for pid in sys.argv[1:]:
         ok = pass_without and fail_with and suite_green
         print(f'{pid}-{v}: demo passes without={pass_without} fails with={fail_with} suite green={suite_green} ({m.group(0) if m else r2.stdout.strip()[:60]}) -> {"KEEP" if ok else "DROP"}')
         if ok:
-            d = f'/verif/seeded/{pid}-{v}'; os.makedirs(d, exist_ok=True)
+            d = f'/verif/seeded/{pid}-{LETTER[v]}'; os.makedirs(d, exist_ok=True)
             shutil.copy(patch, d + '/patch.diff'); shutil.copy(demo, d + '/demo.rs')
             # the part of the agent's README about this change
-            json.dump({"property": pid, "title": props[pid], "source": "independent sub-agent that saw only the property text and a scratch worktree", "needs_to_manifest": "see README.md (agent's description)", "confirmed": {"demo_passes_without_patch": True, "demo_fails_with_patch": True, "library_unit_tests_with_patch": "242 passed, 0 failed", "how": "tools/verify_seeds.py in the scratch worktree /tmp/seed/%s: cargo test --offline --test seed_demo (before/after git apply), cargo test --offline --lib" % pid}}, open(d + '/meta.json', 'w'), indent=1)
+            json.dump({"property": pid, "title": props[pid], "source": "independent sub-agent that saw only the property text and a scratch worktree", "needs_to_manifest": "see README.md (agent's description)", "confirmed": {"demo_passes_without_patch": True, "demo_fails_with_patch": True, "library_unit_tests_with_patch": "242 passed, 0 failed", "how": "tools/verify_seeds.py in the scratch worktree %s/%s: cargo test --offline --test seed_demo (before/after git apply), cargo test --offline --lib" % (BASE, pid)}}, open(d + '/meta.json', 'w'), indent=1)
             open(d + '/README.md', 'w').write(readme)
